@@ -515,6 +515,13 @@ def random_case(rng, quick):
                     d = _dt.datetime(*p) + shift
                     return [d.year, d.month, d.day, d.hour, d.minute, d.second, d.microsecond]
                 new = {'span': [[moved(a), moved(b)] for a, b in blk['cfg']['span']]}
+            if blk['kind'] == 'td' and blk['cfg'].get('times') and rng.random() < 0.3:
+                # the same endpoint values paired differently (a..b -> b..a: the complement;
+                # a..b, c..d -> b..c, d..a): the set of wake-up times does not change at all
+                old = [list(r) for r in blk['cfg']['times']]
+                pts = [p for r in old for p in r]
+                rot = pts[1:] + pts[:1]
+                new = dict(blk['cfg'], times=[[rot[k], rot[k + 1]] for k in range(0, len(rot), 2)])
             aimed = False
             t = rng.uniform(1.0, days * DAY * 0.8)
             if rng.random() < 0.6:
